@@ -29,10 +29,12 @@ def sortInts (l : List Int) : List Int := l.mergeSort (fun a b => decide (a ≤ 
 def sortNats (l : List Nat) : List Nat := l.mergeSort (fun a b => decide (a ≤ b))
 
 def parseRule (i : Nat) (s : String) : Option (Rule × Bool) :=
-  match s.splitOn ":" with
-  | [p, f, k] => do
+  let mk (p f k : String) : Option (Rule × Bool) := do
     let p ← p.toInt?
-    some ({ name := i, prio := p, fails := f == "1" }, k == "1")
+    some ({ name := i, prio := p, fails := f != "0" }, k == "1")
+  match s.splitOn ":" with
+  | [p, f, k] => mk p f k
+  | [p, f, k, _] => mk p f k        -- 4th field: fractional digit of a sink priority (floored away)
   | _ => none
 
 /-- history letters: s Start, f Finish, r Reset, a AddRule (all rules), T / F set the flag,
@@ -154,12 +156,31 @@ def runQ (ops : List String) : String :=
   let (out, q) := go {} 0 ops []
   " ".intercalate out ++ " end" ++ layout q ++ (if ops.length ≥ 4 then "\tnt=1" else "")
 
+/-- `validate` mode: `<V payload> ## exec=<names> err=<names> kids=<n>` → `ok` / `bad` -/
+def parseNames (s : String) : Option (List Nat) :=
+  if s == "-" then some [] else (s.splitOn ".").mapM (·.toNat?)
+
+def validateCase (line : String) : String :=
+  match line.splitOn " ## " with
+  | [payload, observed] =>
+    match payload.splitOn " ", observed.splitOn " " with
+    | "V" :: flag :: rs, [ex, er, kd] =>
+      match (rs.zipIdx.map fun (s, i) => parseRule i s).mapM id,
+            parseNames ((ex.drop 5).toString), parseNames ((er.drop 4).toString), ((kd.drop 5).toString).toNat? with
+      | some rules, some exec, some errs, some kids =>
+        let want := (exec.filter fun i => (rules[i]?.map (·.2)).getD false).length
+        if validRun (flag == "1") (rules.map (·.1)) exec errs && kids == want then "ok" else "bad"
+      | _, _, _, _ => "bad-payload"
+    | _, _ => "bad-payload"
+  | _ => "bad-payload"
+
 def runCase (payload : String) : String :=
   match payload.splitOn " " with
   | "R" :: flag :: rules => runRules flag rules
   | "S" :: rules => runRules "1" rules
   | "B" :: ops => runBook ops
   | "Q" :: ops => runQ ops
+  | "V" :: _ => "validated"
   | ["K", workers, flag, roots] => runCascade workers flag roots
   | _ => "bad-payload"
 
@@ -181,5 +202,7 @@ def traceCase (payload : String) : String :=
     | none, some k => s!"bad-heap {k}"
 
 def run (args : List String) : IO Unit :=
-  if args == ["trace"] then lineLoop traceCase else lineLoop runCase
+  if args == ["trace"] then lineLoop traceCase
+  else if args == ["validate"] then lineLoop validateCase
+  else lineLoop runCase
 end Ecal.Drv.C10
